@@ -473,7 +473,10 @@ def gen_descs(tier, rng, focus=None):
                 opts["ft"] = str(rng.choice(["none", "none", "callable"]))
                 cfg.update(maxiter=int(rng.integers(3, 30)), maxfun=int(rng.integers(10, 80)))
         restart = int(rng.integers(1, 5)) if (rng.random() < 0.25 or focus == "restart") else 0
-        yield dict(spec=spec, cfg=cfg, opts=opts, restart=restart, red=int(rng.integers(0, 3)))
+        d = dict(spec=spec, cfg=cfg, opts=opts, restart=restart, red=int(rng.integers(0, 3)))
+        if restart and rng.random() < 0.08:
+            d["x0_off"] = [float(rng.choice([0.5, -0.25, 1e-9]))]   # x0 differs from checkpoint.x: the package raises ValueError
+        yield d
 
 
 def build_case(desc, name):
@@ -491,6 +494,8 @@ def build_case(desc, name):
         kw["checkpoint"] = copy.deepcopy(ck)
         if desc.get("red"):
             kw["maxcor"] = max(1, kw["maxcor"] - desc["red"])
+        if desc.get("x0_off"):
+            kw["x0"] = kw["x0"] + np.asarray(desc["x0_off"], dtype=float)[: kw["x0"].size].sum() * np.eye(kw["x0"].size)[0]
     C, outcome = record(kw)
     txt = render(name, C, kw, outcome, ckpt=ck)
     info = dict(events=len(C.events), outcome=outcome[0], message=(outcome[1].message if outcome[0] == "ok" else outcome[1]),
